@@ -782,6 +782,9 @@ class PhaseField(_IModel):
 
             # Eigenvalue calculations [e,pg]
             delta = tr_e_pg**2 - (4 * det_e_pg)
+            # delta = (exx - eyy)^2 + 4 exy^2 >= 0, but the cancellation above can round to a tiny
+            # negative value for (nearly) equal eigenvalues: sqrt(delta) would be NaN
+            delta = np.maximum(delta, 0)
 
             eigs_e_pg = FeArray.zeros(Ne, nPg, 2)
             eigs_e_pg[:, :, 0] = (tr_e_pg - np.sqrt(delta)) / 2
